@@ -344,6 +344,23 @@ def witness_search(tier, seed):
         sf = SMSimfile.blank()
         if Assets(song, simfile=sf).banner is not None or Assets(song, simfile=sf).music is not None:
             return dict(input="directory without matching entries", detail="answer is not None")
+        # the same on an in-memory filesystem, where joining a directory with "" gives the directory itself
+        from fs.memoryfs import MemoryFS
+        mem = MemoryFS()
+        mem.makedirs("songs/tune/Sub")
+        mem.writetext("songs/tune/notes.txt", "x")
+        mem.writetext("songs/tune/Sub/Inner.PNG", "x")
+        for prop, value, expect in (("BANNER", "", None), ("MUSIC", "", None), ("BACKGROUND", None, None), ("BANNER", "Sub/inner.png", "songs/tune/Sub/Inner.PNG"),
+                                    ("CDTITLE", "nodir/x.png", None)):
+            sf = SMSimfile.blank()
+            if value is None:
+                sf.pop(prop, None)
+            else:
+                sf[prop] = value
+            got = getattr(Assets("songs/tune", simfile=sf, filesystem=mem), prop.lower())
+            if got != expect:
+                return dict(input=dict(filesystem="MemoryFS with songs/tune/notes.txt and songs/tune/Sub/Inner.PNG", prop=prop, value=value),
+                            detail=f"got {got!r}, expected {expect!r}")
         pack = os.path.join(d, "Pack")
         if SimfilePack(pack).banner() is not None:
             return dict(input="pack without images", detail="banner is not None")
